@@ -62,3 +62,82 @@ Theorem C02_deletes_keep_the_other_versions :
     Kept ids a0 (snd (fst (run pre (delete_prog ids dry brk hint) a0 phi))).
 Proof. exact delete_keeps. Qed.
 Print Assumptions C02_deletes_keep_the_other_versions.
+
+(* ---- the composition over histories ---- *)
+From Coq Require Import List NArith.
+From CV Require Import Conf Truth E2E E2EP Healthy History HistoryP.
+Local Open Scope N_scope.
+
+(* THE PROPERTY.  Start from a fresh archive (or any state satisfying the invariant all
+   operations keep).  Run ANY history l1 of backups and deletes, each under its own arbitrary
+   fault list (failures, kills, torn writes); then a backup that completes successfully into
+   band b (under arbitrary faults too); then ANY history l2, again with arbitrary faults in
+   backups AND deletes, that does not delete b.  At EVERY state the archive passes through
+   afterwards (intermediate states of later operations included) band b is complete and
+   restoring it returns, in order and with no error, exactly one restored item per source
+   item with the source's metadata and the bytes read from the source (or, for an entry
+   reused because kind+mtime+size were unchanged, what the previous entry restored to). *)
+Theorem C02_completed_version_restores_exactly_after_any_history :
+  forall (pre : bytes -> N) (l1 : list hop2) (c : cfg) (src : list sitem) (phi : list fault) (l2 : list hop2) (a0 : arch) (b : N),
+    RInv pre a0 ->
+    Forall hop2_src_ok (l1 ++ H2Backup c src phi :: l2) -> cfg_ok c ->
+    let a_before := run_history2 pre a0 l1 in
+    backup_completed pre c src a_before phi b ->
+    Forall (hop2_keeps b) l2 ->
+    forall a, In a (history_states2 pre (run_hop2 pre a_before (H2Backup c src phi)) l2) ->
+      complete a b
+      /\ exists tr rr,
+           run pre (restore_prog (Specified b) keep_all) a [] = (tr, a, Store.Done rr)
+           /\ r_ok rr = true /\ r_merr rr = 0
+           /\ Forall2 (item_restored c a_before) (known_items src) (r_files rr).
+Proof. exact history_restores_exact. Qed.
+Print Assumptions C02_completed_version_restores_exactly_after_any_history.
+
+(* Without a success hypothesis: after any earlier history whose deletes ran to their end, a
+   backup that meets no fault DOES complete, into the next band id, and the above holds. *)
+Theorem C02_fault_free_backup_completes_and_stays_restorable :
+  forall (pre : bytes -> N) (l1 : list hop2) (c : cfg) (src : list sitem) (l2 : list hop2) (a0 : arch),
+    Ready pre a0 ->
+    Forall hop2_src_ok (l1 ++ H2Backup c src [] :: l2) -> cfg_ok c ->
+    Forall hop2_unlocking l1 ->
+    let a_before := run_history2 pre a0 l1 in
+    let a_end := run_history2 pre a0 (l1 ++ H2Backup c src [] :: l2) in
+    let b := new_band a_before in
+    Forall (hop2_keeps b) l2 ->
+    backup_completed pre c src a_before [] b
+    /\ complete a_end b
+    /\ exists tr rr,
+         run pre (restore_prog (Specified b) keep_all) a_end [] = (tr, a_end, Store.Done rr)
+         /\ r_ok rr = true /\ r_merr rr = 0
+         /\ Forall2 (item_restored c a_before) (known_items src) (r_files rr).
+Proof. exact history_restores_exact_ff. Qed.
+Print Assumptions C02_fault_free_backup_completes_and_stays_restorable.
+
+(* A fresh archive satisfies the invariant. *)
+Theorem C02_fresh_archive_ready : forall pre : bytes -> N, Ready pre (init_state pre).
+Proof. exact init_ready. Qed.
+Print Assumptions C02_fresh_archive_ready.
+
+(* 'Latest complete' selects that version when it is the newest band. *)
+Theorem C02_latest_complete_after_history :
+  forall (pre : bytes -> N) (l1 : list hop2) (c : cfg) (src : list sitem) (phi : list fault) (l2 : list hop2) (a0 : arch) (b : N),
+    RInv pre a0 ->
+    Forall hop2_src_ok (l1 ++ H2Backup c src phi :: l2) -> cfg_ok c ->
+    let a_before := run_history2 pre a0 l1 in
+    let a_end := run_history2 pre a0 (l1 ++ H2Backup c src phi :: l2) in
+    backup_completed pre c src a_before phi b ->
+    Forall (hop2_keeps b) l2 ->
+    (forall b', has_dir a_end (DBand b') = true -> b' <= b) ->
+    latest_closed_of pre a_end = Store.Done (Some b).
+Proof. exact latest_complete_after_history. Qed.
+Print Assumptions C02_latest_complete_after_history.
+
+(* Deleting other versions / gc: at every state of every run, a kept complete version is
+   still complete and restores to exactly the same result (entries, bytes, error count). *)
+Theorem C02_delete_does_not_change_a_kept_version :
+  forall (pre : bytes -> N) (ids : list N) (dry brk : bool) (hint : list bytes) (keep : entry -> bool) (a0 : arch) (b : N) (phi : list fault),
+    RInv pre a0 -> complete a0 b -> ~ In b ids ->
+    Forall (fun a => restore_of pre keep a b = restore_of pre keep a0 b /\ complete a b)
+           (all_states pre (delete_prog ids dry brk hint) a0 phi).
+Proof. exact delete_restore_stable. Qed.
+Print Assumptions C02_delete_does_not_change_a_kept_version.
